@@ -400,7 +400,40 @@ RAW_STREAMS = [
 ]
 
 
+# raw JSON with an independent reference: documents and stray closing brackets at document boundaries (a stray closer is a
+# one-byte malformed frame: one error, exactly that byte consumed, later documents intact)
+RAW_REF_PIECES = {"D1": (b'{"1":1}', ("P", repr({"1": 1}))), "D2": (b"[2,2]", ("P", repr([2, 2]))), "D3": (b'"3"', ("P", repr("3"))),
+                  "C1": (b"]", E_INC), "C2": (b"}", E_INC)}
+
+
+def run_raw_json_reference(res: JobResult) -> None:
+    names = list(RAW_REF_PIECES)
+    for L in (1, 2, 3):
+        for seq in itertools.product(names, repeat=L):
+            if not any(n.startswith("C") for n in seq):
+                continue
+            stream = b"".join(RAW_REF_PIECES[n][0] for n in seq)
+            expected = tuple(RAW_REF_PIECES[n][1] for n in seq)
+            fac = lambda: chunkmc.CopyDriver(StreamProtocol(JSONSerializer(use_lines=False, limit=32)))  # noqa: E731
+            r = chunkmc.search(fac, stream)
+            res.evaluations += r.evaluations
+            res.states += r.states
+            res.transitions += r.transitions
+            res.nontrivial.add(digest(("json/raw/ref", stream)))
+            for (outs, extra), path in r.terminals.items():
+                if outs == expected and extra == (b"", False):
+                    res.outcome("raw-json-reference-ok")
+                    continue
+                res.outcome("raw-json-reference-differs")
+                res.violations.append(Violation(
+                    "copy/json-raw/differs-from-reference" if extra != "crash" else "copy/json-raw/crash",
+                    f"json raw stream={stream!r} ({seq}) chunking={list(path)}: observed {outs!r} leftover={extra!r}; reference {expected!r}",
+                    {"cfg": "json/raw", "stream": stream.decode("latin-1"), "path": list(path), "expected": [list(e) for e in expected]},
+                ))
+
+
 def run_raw_json(res: JobResult) -> None:
+    run_raw_json_reference(res)
     """Raw JSON has no independent framing reference: chunking invariance against the whole-stream-at-once run."""
     for stream in RAW_STREAMS:
         fac = lambda: chunkmc.CopyDriver(StreamProtocol(JSONSerializer(use_lines=False, limit=32)))  # noqa: E731
@@ -445,6 +478,9 @@ def replay(doc: dict) -> tuple[bool, str]:
         d2, o2, _p, c2 = chunkmc._replay(fac, stream, tuple(rp["path"]))
         w1 = (tuple(o1), "crash" if c1 else d1.leftover())
         w2 = (tuple(o2), "crash" if c2 else d2.leftover())
+        if rp.get("expected") is not None:
+            exp = tuple(tuple(e) for e in rp["expected"])
+            return w2 != (exp, (b"", False)), f"stream={stream!r}\nchunking {rp['path']}: {w2!r}\nreference: {exp!r}"
         return w1 != w2 or bool(c2), f"stream={stream!r}\nwhole: {w1!r}\nchunking {rp['path']}: {w2!r}"
     cfg = fby_name(rp["cfg"])
     stream, frames = build_stream(cfg, rp["limit"], tuple(rp["kseq"]))
